@@ -39,7 +39,8 @@ def gen_cases(ctx):
         kind = rng.choice([None, None, "spider", "chain", "star"])
         n = rng.choice([3, 4, 5, 6, 7]) if kind else rng.choice([1, 2, 3, 4, 5, 6])
         cases.append({"par": gen.random_parent_array(rng, n, kind), "seed": rng.randrange(10 ** 9),
-                      "mode": rng.choice(MODES), "moves": rng.randint(0, 6), "deficient": rng.random() < 0.3})
+                      "mode": rng.choice(MODES), "moves": rng.randint(0, 6), "deficient": rng.random() < 0.3,
+                      "mixed": rng.random() < 0.5})
     return cases
 
 
@@ -121,7 +122,7 @@ def _make_state(case):
     return rng, ttns, info
 
 
-def _check_state(ttns, centre, mode, v0, struct0, shapes0, order, what):
+def _check_state(ttns, centre, mode, v0, struct0, shapes0, order, what, strict=None):
     probs = []
     if dense.structure(ttns) != struct0:
         return [f"{what}: identifiers / parent-child relations changed"]
@@ -139,13 +140,14 @@ def _check_state(ttns, centre, mode, v0, struct0, shapes0, order, what):
             continue
         path = dense.path_between(ttns, nid, centre)
         m = dense.matricize_toward(ttns, nid, path[1])
-        if mode == "KEEP":
+        want_strict = (mode != "KEEP") if strict is None else strict.get(nid, False)
+        if not want_strict:
             if not dense.is_partial_isometry(m, 1e-8):
                 probs.append(f"{what}: node {nid} is not a partial isometry toward {centre}")
         else:
             if not dense.is_isometry(m, 1e-8):
                 probs.append(f"{what}: node {nid} is not an isometry toward {centre}")
-    if mode == "KEEP" and c06._shape_map(ttns) != shapes0:
+    if mode == "KEEP" and shapes0 is not None and c06._shape_map(ttns) != shapes0:
         probs.append(f"{what}: KEEP mode changed tensor shapes")
     n2 = float(np.vdot(v0, v0).real)
     for flag in (True, False):
@@ -201,21 +203,48 @@ def _run_impl(ctx, case, qlog):
     ctx.hyp_validated += len(qlog.log)
     probs = _check_state(ttns, centre, case["mode"], v0, struct0, shapes0, order, f"canonical_form at {centre}")
     cur = centre
+    # expected status per node: True = strict isometry, False = only a (zero-padded) partial isometry
+    strict = {nid: case["mode"] != "KEEP" for nid in order}
+    shapes_now = shapes0 if case["mode"] == "KEEP" else c06._shape_map(ttns)
     for mv in range(case["moves"]):
         if probs:
             break
         new = rng.choice(order)
-        path = dense.path_between(ttns, cur, new)
+        op_mode_name = rng.choice(MODES) if case.get("mixed") else case["mode"]
+        op_mode = getattr(SplitMode, op_mode_name)
+        recanon = case.get("mixed") and rng.random() < 0.4
         qlog.log.clear()
-        try:
-            ttns.move_orthogonalization_center(new, mode=mode)
-        except Exception as e:      # noqa: BLE001
-            probs.append(f"move {cur}->{new} raised {type(e).__name__}: {str(e)[:160]}")
-            break
-        impl = (f"{inv[ttns.orthogonality_center_id]} " + " ".join(f"{inv[a]}>{inv[b]}" for a, b in qlog.log)).strip()
-        out.append(("C03 move " + " ".join(str(inv[p]) for p in path), impl))
+        if recanon:
+            dist = ttns.distance_to_node(new)
+            nb = {nid: ([nd.parent] if nd.parent is not None else []) + list(nd.children)
+                  for nid, nd in ttns.nodes.items()}
+            line = "C03 canon " + " ".join(f"{inv[k]}:{d}" for k, d in dist.items()) + " | " + \
+                   " ".join(f"{inv[k]}:{','.join(str(inv[x]) for x in v)}" for k, v in nb.items())
+            try:
+                ttns.canonical_form(new, mode=op_mode)
+            except Exception as e:      # noqa: BLE001
+                probs.append(f"canonical_form({new}, {op_mode_name}) on a canonical state raised {type(e).__name__}: {str(e)[:160]}")
+                break
+            impl = ("ok " + " ".join(f"{inv[a]}>{inv[b]}" for a, b in qlog.log)).strip()
+            out.append((line, impl))
+            strict = {nid: op_mode_name != "KEEP" for nid in order}
+            what = f"re-canonicalisation at {new} in {op_mode_name}"
+        else:
+            path = dense.path_between(ttns, cur, new)
+            try:
+                ttns.move_orthogonalization_center(new, mode=op_mode)
+            except Exception as e:      # noqa: BLE001
+                probs.append(f"move {cur}->{new} raised {type(e).__name__}: {str(e)[:160]}")
+                break
+            impl = (f"{inv[ttns.orthogonality_center_id]} " + " ".join(f"{inv[a]}>{inv[b]}" for a, b in qlog.log)).strip()
+            out.append(("C03 move " + " ".join(str(inv[p]) for p in path), impl))
+            for nid in path[:-1]:
+                strict[nid] = strict[nid] and False if op_mode_name == "KEEP" else True
+            what = f"move {cur}->{new} in {op_mode_name}"
         ctx.evaluations += 1
-        probs += _check_state(ttns, new, case["mode"], v0, struct0, shapes0, order, f"move {cur}->{new}")
+        keep_shapes = shapes_now if op_mode_name == "KEEP" else None
+        probs += _check_state(ttns, new, op_mode_name, v0, struct0, keep_shapes, order, what, strict=strict)
+        shapes_now = c06._shape_map(ttns)
         cur = new
     if probs:
         ctx.oracle_fail(case, f"{case['mode']}: " + "; ".join(probs[:4]))
